@@ -58,6 +58,7 @@ def setup_slot(k):
     if not os.path.exists(r):
         run("git -C /repo worktree add --detach %s HEAD" % r, "/")
     run("git checkout -q -- . && git clean -fdq src tests", r)
+    run("git checkout -q --detach $(git -C /repo rev-parse HEAD)", r)     # follow /repo's HEAD (hooks / fixes committed since)
     if os.path.exists("/repo/Cargo.lock") and not os.path.exists(os.path.join(r, "Cargo.lock")):
         shutil.copy("/repo/Cargo.lock", r)
     run("sed -i 's#path = \"/repo\"#path = \"%s\"#' harness/Cargo.toml" % r, v)
